@@ -346,3 +346,125 @@ pub fn ref_occurs_at(h: &[u8], n: &[u8], i: usize) -> bool {
 pub fn is_ascii_ws(b: u8) -> bool {
     b == b'\t' || b == b'\n' || b == 0x0C || b == b'\r' || b == b' '
 }
+
+/// Unicode Table 3-7 (well-formed UTF-8 byte sequences), comparisons only.
+pub fn utf8_ok(b: &[u8]) -> bool {
+    let n = b.len();
+    let mut i = 0;
+    while i < n {
+        let b0 = b[i];
+        if b0 < 0x80 {
+            i += 1;
+        } else if b0 >= 0xC2 && b0 <= 0xDF {
+            if i + 1 >= n || !is_cont(b[i + 1]) {
+                return false;
+            }
+            i += 2;
+        } else if b0 >= 0xE0 && b0 <= 0xEF {
+            if i + 2 >= n {
+                return false;
+            }
+            let b1 = b[i + 1];
+            let lo = if b0 == 0xE0 { 0xA0 } else { 0x80 };
+            let hi = if b0 == 0xED { 0x9F } else { 0xBF };
+            if b1 < lo || b1 > hi || !is_cont(b[i + 2]) {
+                return false;
+            }
+            i += 3;
+        } else if b0 >= 0xF0 && b0 <= 0xF4 {
+            if i + 3 >= n {
+                return false;
+            }
+            let b1 = b[i + 1];
+            let lo = if b0 == 0xF0 { 0x90 } else { 0x80 };
+            let hi = if b0 == 0xF4 { 0x8F } else { 0xBF };
+            if b1 < lo || b1 > hi || !is_cont(b[i + 2]) || !is_cont(b[i + 3]) {
+                return false;
+            }
+            i += 4;
+        } else {
+            return false;
+        }
+    }
+    true
+}
+
+pub fn is_cont(b: u8) -> bool {
+    b >= 0x80 && b < 0xC0
+}
+
+/// std's definition of `str::is_char_boundary` over bytes
+pub fn ref_boundary(b: &[u8], i: usize) -> bool {
+    i == b.len() || (i < b.len() && !is_cont(b[i]))
+}
+
+/// A symbolic valid UTF-8 string of at most `max_len` *bytes* (every mix of 1-4 byte
+/// sequences that fits), built from symbolic bytes constrained by `utf8_ok`.
+pub struct BStr<const CAP: usize> {
+    pub buf: [u8; CAP],
+    pub len: usize,
+}
+
+impl<const CAP: usize> BStr<CAP> {
+    pub fn any<S: Src>(s: &mut S) -> Self {
+        let buf: [u8; CAP] = s.bytes();
+        let len = s.upto(CAP);
+        let ok = utf8_ok(&buf[..len]);
+        s.assume(ok);
+        BStr { buf, len }
+    }
+    pub fn as_str(&self) -> &str {
+        // guarded by the utf8_ok assumption (cross-checked against core::str::from_utf8 in c03_spec_utf8_ok)
+        unsafe { core::str::from_utf8_unchecked(&self.buf[..self.len]) }
+    }
+    pub fn as_bytes(&self) -> &[u8] {
+        &self.buf[..self.len]
+    }
+}
+
+/// Stubs for konst_kernel's panic helpers (`basic_panic` formats a 256-byte message in loops
+/// before panicking; its argument type is crate-private, so its callers are stubbed instead).
+/// Each stub keeps the only behaviour the properties talk about: it panics and never returns.
+pub fn stub_non_char_boundary_panic(_extreme: &str, _index: usize) -> ! {
+    panic!("non_char_boundary_panic (stubbed)")
+}
+
+/// reference for `trim_start_matches`: offset after the maximal run of whole repetitions of `n`
+pub fn ref_reps_start(h: &[u8], n: &[u8]) -> usize {
+    if n.len() == 0 {
+        return 0;
+    }
+    let mut i = 0;
+    while ref_occurs_at(h, n, i) {
+        i += n.len();
+    }
+    i
+}
+
+/// reference for `trim_end_matches`: offset where the maximal trailing run of repetitions starts
+pub fn ref_reps_end(h: &[u8], n: &[u8]) -> usize {
+    let mut e = h.len();
+    if n.len() == 0 {
+        return e;
+    }
+    while e >= n.len() && ref_occurs_at(&h[..e], n, e - n.len()) {
+        e -= n.len();
+    }
+    e
+}
+
+pub fn ref_ws_start(h: &[u8]) -> usize {
+    let mut i = 0;
+    while i < h.len() && is_ascii_ws(h[i]) {
+        i += 1;
+    }
+    i
+}
+
+pub fn ref_ws_end(h: &[u8]) -> usize {
+    let mut e = h.len();
+    while e > 0 && is_ascii_ws(h[e - 1]) {
+        e -= 1;
+    }
+    e
+}
